@@ -37,10 +37,8 @@ func reverse64(s []int64) []int64 {
 
 func checkC09(c *hx.Checker) {
 	thorough := c.Tier == "thorough"
-	maxRank := 3
-	if thorough {
-		maxRank = 4
-	}
+	maxRank := 4 // gorgonia's middle-axis reduction misbehaves only from rank 4 on, so both tiers cover rank 4
+	_ = thorough
 	c.Rule = fmt.Sprintf("shapes Box(rank 1..%d, extents {1,2,3}). ArgMax: every axis in [-r-1,r] + axis absent x keepdims {absent,0,1} x fills = every value tuple over {1,2,3,NaN}^n laid along the axis (all ties / NaN positions), gate dtypes, select_last_index=1 must be refused; "+
 		"ReduceMax/ReduceMin: every non-empty axes subset in positive, negative and reversed (unsorted) spelling + axes absent + duplicate/out-of-range axes x keepdims {absent,0,1}, gate dtypes; "+
 		"Softmax/LogSoftmax: every axis + default x (distinct fills at 3 scales) + every value tuple over {0,+-1,+-10,+-88,+-89,+-104,+-1e4,+-1e30,+-max}^n for n<=3 on shapes (n),(2,n),(n,2); float32 and float64. "+
@@ -190,6 +188,17 @@ func checkC09(c *hx.Checker) {
 						}
 						if err == nil && len(exp.Shape) == 0 {
 							extra = append(extra, "result-rank0")
+						}
+						if r == 4 && ac.has && len(ac.axes) > 0 {
+							first := 4
+							for _, a := range ac.axes {
+								if n := int((a + 4) % 4); n < first {
+									first = n
+								}
+							}
+							if first == 2 {
+								extra = append(extra, "rank4-lowest-reduced-axis=2")
+							}
 						}
 						jobs = append(jobs, newJob(op, attrs, []*ref.T{data}, []*ref.T{exp}, err, hx.DCompute, hx.Bits, "op", nil, fmt.Sprintf("%s kd=%d", ac.desc, kd), extra...))
 					}
